@@ -31,7 +31,7 @@ class Color(aenum.Enum, shape=unsigned(2)):
 
 
 def flat_ports(c):
-    return [v for _, _, v in c.signature.flatten(c)]
+    return [(v.as_value() if hasattr(v, "as_value") else v) for _, _, v in c.signature.flatten(c)]
 
 
 def convert(c, extra=()):
